@@ -398,6 +398,109 @@ def r11_6(prog: Program, chk: Check) -> None:
     )
 
 
+# ------------------------------------------------------------------- R11.7
+def _filter_files(max_lines: int):
+    import itertools
+
+    from . import filter_model as flt
+
+    kinds = list(flt.LINE_KINDS)
+    small = ["code", "code+bare", "code+A", "code+B+A", "own-bare", "own-A"]
+    for n in range(1, max_lines + 1):
+        pool = kinds if n <= 2 else small
+        for combo in itertools.product(pool, repeat=n):
+            yield [flt.LINE_KINDS[k] for k in combo], combo
+    # stacked and interrupted own-line comments (always included)
+    for combo in (
+        ("own-A", "comment", "code"), ("own-B", "own-A", "code"), ("own-A", "own-B", "code"), ("own-bare", "own-A", "code"),
+        ("code+A", "own-B", "code"), ("comment", "own-A", "code"), ("code", "own-A", "code+B"), ("code", "own-A", "own-B", "code"),
+        ("code", "own-A", "comment", "own-B", "code"), ("code", "own-A-indented", "own-B", "indented-code"),
+    ):
+        yield [flt.LINE_KINDS[k] for k in combo], combo
+
+
+def _filter_chunk(args):
+    part, nparts, max_lines = args
+    import itertools
+
+    from ..model import Program as _P
+    from . import filter_model as flt
+
+    model = flt.FilterModel(_P())
+    n = 0
+    classes: Dict[str, Dict[str, object]] = {}
+
+    def note(key: str, bad: bool, detail) -> None:
+        c = classes.setdefault(key, {"n": 0, "bad": 0, "witness": []})
+        c["n"] += 1  # type: ignore[operator]
+        if bad:
+            c["bad"] += 1  # type: ignore[operator]
+            w = c["witness"]
+            w.append(detail)  # type: ignore[union-attr]
+            w.sort(key=lambda d: (len(d["file"]), len(d["diagnostics"]), repr(d)))  # type: ignore[union-attr]
+            del w[4:]  # type: ignore[arg-type]
+
+    subsets = [frozenset(x) for x in ((), ("A",), ("B",), ("A", "B"))]
+    for idx, (lines, kinds) in enumerate(_filter_files(max_lines)):
+        if idx % nparts != part:
+            continue
+        positions = [(ln, c) for ln in range(1, len(lines) + 1) for c in flt.CODES]
+        seqs = [()] + [(p,) for p in positions] + list(itertools.product(positions, repeat=2))
+        for diags in seqs:
+            used_by_enabled = []
+            for en in subsets:
+                n += 1
+                rep, used, _reps, unused = model.run_fresh(lines, diags, en)
+                d = {"file": list(kinds), "diagnostics": list(diags), "enabled": sorted(en)}
+                if isinstance(rep, tuple) and rep and rep[0] == "crash":
+                    note("no-crash", True, {**d, "error": rep[1]})
+                    continue
+                note("no-crash", False, d)
+                want_rep, want_used = flt.reference(lines, diags, en)
+                note("reported = enabled and not suppressed (documented ignore forms)", rep != want_rep, {**d, "reported": rep, "documented": want_rep})
+                note("used ignore comments = comments that suppressed something", used != want_used, {**d, "used": sorted(used), "documented": sorted(want_used)})
+                want_unused = [i for i, l in enumerate(lines) if flt.IC in l and i not in want_used]
+                note("unused ignore comments = the other ignore comments", sorted(unused) != want_unused, {**d, "unused": sorted(unused), "documented": want_unused})
+                used_by_enabled.append(frozenset(used))
+            note("ignore accounting does not depend on which codes are enabled", len(set(used_by_enabled)) > 1, {"file": list(kinds), "diagnostics": list(diags), "used_per_enabled_set": [sorted(u) for u in used_by_enabled]})
+    return n, classes
+
+
+def r11_7(prog: Program, chk: Check) -> None:
+    import multiprocessing as mp
+    import os as _os
+
+    max_lines = 2 if _os.environ.get("VERIF_SELFTEST") else 3
+    chk.rule(
+        "R11.7",
+        "the diagnostic filter as a finite model: show_error, has_file_level_ignore, _lines, is_enabled and get_unused_ignores are interpreted from their AST on every file of up to "
+        f"{max_lines} lines drawn from 10 line kinds (code, trailing bare / [A] / [B] / two comments, own-line bare / [A] / indented, plain comment), every sequence of up to 2 raw "
+        "diagnostics (line x code, duplicates included) and every set of enabled codes: the reported diagnostics are exactly the enabled ones not suppressed by a documented ignore form, "
+        "the used / unused ignore comments are those that did / did not suppress something, and neither depends on which codes are enabled",
+        floor=5,
+    )
+    procs = 2 if _os.environ.get("VERIF_SELFTEST") else min(16, _os.cpu_count() or 1)
+    tasks = [(i, procs * 3, max_lines) for i in range(procs * 3)]
+    with mp.get_context("fork").Pool(procs) as pl:
+        results = pl.map(_filter_chunk, tasks)
+    total = 0
+    merged: Dict[str, Dict[str, object]] = {}
+    for n, classes in results:
+        total += n
+        for k, c in classes.items():
+            m = merged.setdefault(k, {"n": 0, "bad": 0, "witness": []})
+            m["n"] += c["n"]  # type: ignore[operator]
+            m["bad"] += c["bad"]  # type: ignore[operator]
+            m["witness"] = sorted(list(m["witness"]) + list(c["witness"]), key=lambda d: (len(d["file"]), len(d["diagnostics"]), repr(d)))[:4]  # type: ignore[arg-type]
+    chk.model_evaluations += total
+    chk.analysed["filter_model"] = {"runs": total, "max_lines": max_lines}
+    site = prog.site("node_visitor", prog.func("node_visitor", "BaseNodeVisitor.show_error"))
+    for k, c in sorted(merged.items()):
+        wit = c["witness"]
+        chk.ob("R11.7", f"node_visitor::filter-model::{k}", int(c["bad"]) == 0, site,  # type: ignore[arg-type]
+               f"{c['n']} cases, {c['bad']} failing" + (f"; smallest: {wit[0]}" if wit else ""), witness=wit)  # type: ignore[index]
+
+
 def run(prog: Program, chk: Check) -> None:
     _guard_names(prog)
     r11_1(prog, chk)
@@ -406,3 +509,4 @@ def run(prog: Program, chk: Check) -> None:
     r11_4(prog, chk)
     r11_5(prog, chk)
     r11_6(prog, chk)
+    r11_7(prog, chk)
